@@ -267,6 +267,29 @@ func c18Cancel(step int, concurrent bool, bound int) *explore.Scenario {
 					vsched.Fail(fam+"|read-succeeds", "after Cancel(k0) a Read on its logical connection returned an envelope")
 				}
 			}
+			// a cancelled key that is used again is a new connection: what arrives for k0 after the
+			// cancel must be announced and delivered again
+			if !concurrent {
+				for _, m := range script[min(step, len(script)):] {
+					if m.Header.Source != "k0" {
+						continue
+					}
+					n := 0
+					for idx := range e.conns {
+						if idx == k0idx {
+							continue
+						}
+						for _, r := range e.got[idx] {
+							if r.Id == m.Id {
+								n++
+							}
+						}
+					}
+					if n != 1 {
+						vsched.Fail(fam+"|reused-key-lost", "envelope %d for key k0 arrived after Cancel(k0) (cancel after %d envelopes): delivered %d times on a newly announced connection (announced %d connections); threads: %s", m.Id, step, n, len(e.conns), threadList())
+					}
+				}
+			}
 			// the other key is unaffected
 			okK1 := false
 			for idx := range e.conns {
